@@ -2165,19 +2165,35 @@ Proof.
   - congruence.
 Qed.
 
-Theorem rs_from_thread_run_served ops : forall s w,
-  no_land_after_loop_end (ended s) (ops ++ [ThreadRunAsync w]) = true ->
-  ended (final step s ops) = false.
+Lemma nlale_issued_before_loop_end pre : forall s w post,
+  no_land_after_loop_end (ended s) (pre ++ ThreadRunAsync w :: post) = true ->
+  ended (final step s pre) = false.
 Proof.
-  induction ops as [|o r IH]; intros s w Hb.
+  induction pre as [|o r IH]; intros s w post Hb.
   - cbn in *. apply andb_true_iff in Hb. destruct Hb as [Hb _]. now apply negb_true_iff in Hb.
-  - cbn [final fold_left app]. apply (IH (fst (step s o)) w).
-    assert (Hne : forall o0, o0 <> LoopEnd -> no_land_after_loop_end (ended s) (r ++ [ThreadRunAsync w]) = true ->
-                  no_land_after_loop_end (ended (fst (step s o0))) (r ++ [ThreadRunAsync w]) = true).
+  - cbn [final fold_left app]. apply (IH (fst (step s o)) w post).
+    assert (Hne : forall o0, o0 <> LoopEnd -> no_land_after_loop_end (ended s) (r ++ ThreadRunAsync w :: post) = true ->
+                  no_land_after_loop_end (ended (fst (step s o0))) (r ++ ThreadRunAsync w :: post) = true).
     { intros o0 H0 H1. now rewrite ended_only_by_loop_end. }
     destruct o; cbn [app no_land_after_loop_end] in Hb; try (apply Hne; [discriminate|exact Hb]).
     + apply andb_true_iff in Hb. destruct Hb as [_ Hb]. apply Hne; [discriminate|exact Hb].
     + exact Hb.
+Qed.
+
+(* every from_thread.run() of a run that satisfies the restriction - at whatever position - is served: it is issued
+   before the loop's last iteration, obeys the spec, and never hangs *)
+Theorem rs_from_thread_run_served pre w post s :
+  no_land_after_loop_end (ended s) (pre ++ ThreadRunAsync w :: post) = true ->
+  let s' := final step s pre in
+  ended s' = false /\
+  snd (step s' (ThreadRunAsync w)) <> RHang /\
+  (forall c, wk s' w = WExec c ->
+     step s' (ThreadRunAsync w) = (s', RRT (walk (handed_visible (calls s' c))))).
+Proof.
+  intros Hb. cbn zeta. pose proof (nlale_issued_before_loop_end pre s w post Hb) as He.
+  refine (conj He (conj _ _)).
+  - cbn [step]. destruct (wk (final step s pre) w); cbn [snd]; try discriminate. rewrite He. discriminate.
+  - intros c Ew. apply (from_thread_run_spec _ w c Ew He).
 Qed.
 
 Example ex_no_land_after_loop_end :
